@@ -12,6 +12,7 @@ package pmm
 import (
 	"unsafe"
 	"fmt"
+	"runtime"
 	"regexp"
 	"sort"
 	"strconv"
@@ -20,6 +21,7 @@ import (
 
 	"github.com/ProjectSerenity/firefly/kernel"
 	"github.com/ProjectSerenity/firefly/kernel/mm"
+	"github.com/ProjectSerenity/firefly/kernel/multiboot"
 	"pgregory.net/rapid"
 	"verifharness/vlib"
 )
@@ -32,6 +34,8 @@ type pmRunStats struct {
 	rejected     int
 	drainedWhole bool
 	earlyOtherPool bool
+	retried      bool
+	secondSetup  bool
 }
 
 // pmRun executes a case. prop selects which oracle is asserted ("C01" or "C03").
@@ -49,6 +53,16 @@ func pmRun(c pmCase, prop string) (fail *vlib.Failure, rs pmRunStats) {
 
 	var initErr *kernel.Error
 	pc := vlib.CatchFault(func() { initErr = Init(uintptr(c.KStart), uintptr(c.KEnd)) })
+	if !pc.Panicked && initErr == pmErrMapFail && c.MapFail != 0 {
+		// The hand-over failed half-way (an injected failure of the map seam, after that call had
+		// taken its page-table frames). It is tried again with a fresh allocator; the early-boot
+		// allocator is what it is: every frame it handed out during the failed attempt stays
+		// consumed (the page tables built then are still in use).
+		rs.retried = true
+		bitmapAllocator = BitmapAllocator{}
+		env.reserved, env.mapped, env.reserveSz = nil, nil, nil // (the host memory stays alive until env.close)
+		pc = vlib.CatchFault(func() { initErr = Init(uintptr(c.KStart), uintptr(c.KEnd)) })
+	}
 	if pc.Panicked {
 		rs.initFailed = true
 		if prop == "C03" || prop == "C07" {
@@ -61,6 +75,30 @@ func pmRun(c pmCase, prop string) (fail *vlib.Failure, rs pmRunStats) {
 		return vlib.Failf("pmm.Init %s", v), rs
 	}
 	if prop == "C07" {
+		if c.Grow == 0 || initErr != nil {
+			return nil, rs
+		}
+		regs := append([]pmRegion(nil), c.Regions...)
+		for i := len(regs) - 1; i >= 0; i-- {
+			if _, _, ok := regs[i].whole(); ok && regs[i].Typ == 1 {
+				regs[i].Len += c.Grow * 4096
+				for j := i + 1; j < len(regs); j++ {
+					regs[j].Addr += c.Grow * 4096 // what follows moves up: still sorted, still apart
+				}
+				break
+			}
+		}
+		info2 := pmBuildInfo(regs, c.EntrySize)
+		multiboot.SetInfoPtr(uintptr(unsafe.Pointer(&info2[0])))
+		pc = vlib.CatchFault(func() { initErr = Init(uintptr(c.KStart), uintptr(c.KEnd)) })
+		runtime.KeepAlive(info2)
+		rs.secondSetup = true
+		if pc.Panicked {
+			return vlib.Failf("second set-up of the allocator (last available region %d frames larger): pmm.Init crashed (every region it reserved is followed by an inaccessible page): %v", c.Grow, pc), rs
+		}
+		if v := env.mappingVerdict(); v != "" && (len(env.stray) > 0 || initErr == nil) {
+			return vlib.Failf("second set-up of the allocator (last available region %d frames larger): pmm.Init %s", c.Grow, v), rs
+		}
 		return nil, rs
 	}
 	if initErr != nil {
@@ -85,6 +123,9 @@ func pmRun(c pmCase, prop string) (fail *vlib.Failure, rs pmRunStats) {
 		// the early allocator may pass over a frame at each region / kernel
 		// boundary (documented quirk, see DESIGN.md C02): allow for that
 		need += uint64(nAvail) + 2
+		if rs.retried {
+			need += 8 // what the failed first attempt took from the early allocator and never gave back
+		}
 		usable := uint64(0)
 		for _, f := range avail {
 			if f < kf0 || f > kf1 {
@@ -449,6 +490,9 @@ func pmGenCase(t *rapid.T, prop string) (pmCase, string, bool) {
 	c.KStart, c.KEnd = ks, ke
 	c.Tables = rapid.SampledFrom([]int{0, 0, 1, 2, 3, 3}).Draw(t, "tables")
 	c.Ops = pmGenOps(t, vlib.Scale(120, 400), prop == "C03")
+	if rapid.IntRange(0, 9).Draw(t, "failedhandover") == 0 {
+		c.MapFail = rapid.IntRange(1, 3).Draw(t, "mapfailat")
+	}
 	return c, where, true
 }
 
@@ -477,6 +521,9 @@ func TestVerifC01(t *testing.T) {
 		}
 		if rs.reallocs > 0 {
 			labels = append(labels, "free-then-reallocated")
+		}
+		if rs.retried {
+			labels = append(labels, "hand-over-failed-half-way-then-repeated-with-a-fresh-allocator")
 		}
 		st.Case(c, !rs.initFailed && (pools >= 2 || rs.reallocs > 0 || where != ""), labels...)
 		vlib.Report(t, "C01", c, fail)
@@ -518,6 +565,9 @@ func TestVerifC03(t *testing.T) {
 		}
 		if rs.rejected > 0 {
 			labels = append(labels, "rejected-free")
+		}
+		if rs.retried {
+			labels = append(labels, "hand-over-failed-half-way-then-repeated-with-a-fresh-allocator")
 		}
 		st.Case(c, (boundary && rs.drainedWhole) || rs.rejected > 0, labels...)
 		vlib.Report(t, "C03", c, fail)
@@ -588,8 +638,14 @@ func TestVerifC07Pmm(t *testing.T) {
 		}
 		c.KStart, c.KEnd = ks, ke
 		c.Tables = rapid.IntRange(0, 3).Draw(t, "tables")
+		if rapid.IntRange(0, 3).Draw(t, "again") == 0 {
+			c.Grow = rapid.SampledFrom([]uint64{1, 64, 4096, 32768, 40000, 300000}).Draw(t, "grow")
+		}
 		fail, rs := pmRun(c, "C07")
 		labels := []string{"pmm-init-reservation"}
+		if rs.secondSetup {
+			labels = append(labels, "pmm-set-up-a-second-time-from-a-larger-map")
+		}
 		if aimed {
 			labels = append(labels, "pmm-state-size-aimed-at-a-page-boundary")
 		}
